@@ -125,6 +125,17 @@ def audit_theorems(module, theorems):
         res[m.group(1)] = []
     return res, out
 
+def recheck_oleans(modules):
+    """thorough tier: Lean's independent re-checker over the compiled theorem modules (one module per call).
+    Returns list of problems."""
+    problems = []
+    for m in modules:
+        with Lock("lake"):
+            r = run(["lake", "env", "leanchecker", m], cwd=LEAN)
+        if r.returncode != 0:
+            problems.append(f"leanchecker rejects {m}: " + (r.stdout + r.stderr).strip()[-600:])
+    return problems
+
 def check_proofs(prop_modules, theorems_by_module):
     """Builds the property's theorem modules, audits them.
     Returns dict(ok, obligations, discharged, axioms, problems[])."""
